@@ -36,10 +36,6 @@ theorem string_rules_poly (s : Array Cp) (r : Rule) (_hr : r ∈ defaultCfg.rule
     work (defaultCfg.env s) r.re ⟨p, []⟩ ≤ 12 * (s.size + 1) + 4 :=
   isStrTemplate_linear (defaultCfg.env s) r.re h ⟨p, []⟩
 
-/-- the template clause is not vacuous: exactly the two quoted-string rules of the generated table have the shape -/
-theorem string_rules_are_25_26 :
-    (defaultCfg.rules.zipIdx.filter fun x => isStrTemplate x.1.re).map (·.2) = [25, 26] := by decide +kernel
-
 /-- every rule of the table has a polynomial bound on its number of derivations and on its search tree, for every input and position -/
 theorem every_rule_poly (s : Array Cp) (r : Rule) (hr : r ∈ defaultCfg.rules) (p : Nat) :
     ∃ c d : Nat, (derivs (defaultCfg.env s) r.re ⟨p, []⟩).length ≤ c * (s.size + 1) ^ d ∧
